@@ -22,6 +22,7 @@ fn data_entity_counter_exact()
     }
     assert!(done_at == n, "C05: released exactly after the last of n readers");
     assert!(c.is_done(), "C05: extra decrements do not resurrect the counter");
+    kani::cover!(true, "end of harness reached");
 }
 
 /// Huge counts behave (no wrap): usize::MAX readers, one decrement => not done.
@@ -39,4 +40,5 @@ fn data_entity_counter_no_wrap()
     assert!(z.is_done());
     z.decrement();
     assert!(z.is_done(), "saturating");
+    kani::cover!(true, "end of harness reached");
 }
